@@ -92,3 +92,20 @@ def clone_agrees(obj, want_snap, snap_fn, prop):
     d = snapshot.diff(want_snap, snap_fn(c))
     if d:
         raise PropertyViolation(prop + ".container_clone", "%s.clone(): %s" % (type(obj).__name__, "; ".join("%s: %r -> %r" % x for x in d[:3])), key=prop + ".container_clone")
+
+
+def copies_agree(obj, data, prop):
+    """Python's own copying of a container (copy.deepcopy, a pickle round trip) gives an object that
+    writes the same file.  (Only used for small objects: deep copies are slow.)"""
+    import copy
+    import pickle
+
+    if len(data) > 60000:
+        return
+    for how, fn in (("copy.deepcopy", copy.deepcopy), ("pickle round trip", lambda o: pickle.loads(pickle.dumps(o)))):
+        c = fn(obj)
+        got = c.read()
+        if got != data:
+            raise PropertyViolation(prop + ".python_copy", "%s of a %s writes %d bytes that differ from what the original writes (%d bytes)" % (how, type(obj).__name__, len(got), len(data)), key=prop + ".python_copy")
+    if obj.read() != data:
+        raise PropertyViolation(prop + ".python_copy.original", "copying a %s changed what the original writes" % type(obj).__name__, key=prop + ".python_copy")
